@@ -20,6 +20,19 @@ pub fn check(env: &Env, s: &str, rec: &mut Rec) {
     for p in [Prof::Ucm, Prof::Ucp] {
         let got = api::rule(p, RuleK::Width, s);
         rec.eval();
+        let owned = api::rule_owned(p, RuleK::Width, s);
+        rec.eval();
+        if owned != got {
+            rec.violation(
+                "width-mapping-owned-argument-differs",
+                Witness {
+                    op: format!("{}::width_mapping_rule(String) vs (&str)", p.name()),
+                    case: format!("label={}", util::esc(s)),
+                    expected: api::show_r(&got),
+                    observed: api::show_r(&owned),
+                },
+            );
+        }
         if got != Out::Ok(want.clone()) {
             rec.violation(
                 "width-mapping-differs-from-unicode-wide-narrow-decomposition",
@@ -122,12 +135,25 @@ pub fn run(env: &Env) -> Rec {
                     }
                     check(env, &s, rec);
                 }
+                for k in 1..=2u32 {
+                    if let Some(d) = char::from_u32(cp ^ (k << 16)) {
+                        s.clear();
+                        s.push(d);
+                        s.push(c);
+                        check(env, &s, rec);
+                        s.clear();
+                        s.push('\u{FF21}');
+                        s.push(c);
+                        s.push(d);
+                        check(env, &s, rec);
+                    }
+                }
             }
         }
     });
     rec.merge(r1);
     rec.exhaustive("every Unicode scalar value c in the contexts c, x c, FF21 c, c FF21, e-acute c c");
-    let max_len = if env.quick() { 5 } else { 7 };
+    let max_len = if env.quick() { 7 } else { 8 };
     let k = ALPHA.len();
     let total = util::n_strings(k, max_len);
     let per = 4096usize;
@@ -140,7 +166,7 @@ pub fn run(env: &Env) -> Rec {
     });
     rec.merge(r2);
     rec.exhaustive(format!("all strings up to length {} over {{a, FF21, FF76, FF9E, FFE0, 2460, E9, 1F600}}", max_len));
-    let n = env.n(100_000, 3_000_000);
+    let n = env.n(1_000_000, 30_000_000);
     let per = 2000usize;
     let r3 = par(n.div_ceil(per), |c, rec| {
         let mut rng = Rng::stream(env.seed, 0x11_0000 + c as u64);
@@ -150,6 +176,27 @@ pub fn run(env: &Env) -> Rec {
         }
     });
     rec.merge(r3);
+    let n_long = env.n(15_000, 500_000);
+    let per = 200usize;
+    let r4 = par(n_long.div_ceil(per), |c, rec| {
+        let mut rng = Rng::stream(env.seed, 0x11_C000 + c as u64);
+        let p = env.pools();
+        super::hostile::drive(
+            &mut rng,
+            per,
+            65536,
+            |rng| {
+                let mut t = String::new();
+                for _ in 0..rng.range(1, 3) {
+                    let k = *rng.pick(&[gen::Kind::Width, gen::Kind::Width, gen::Kind::NfkcDiff, gen::Kind::Letter, gen::Kind::FourByte]);
+                    gen::push_kind(p, rng, k, &mut t);
+                }
+                t
+            },
+            |s| check(env, s, rec),
+        );
+    });
+    rec.merge(r4);
     rec
 }
 
